@@ -507,6 +507,11 @@ fn strat() -> BoxedStrategy<History> {
     history_strat(HistOpts::default())
 }
 
+/// Hops that answer from many addresses (per-packet load balancing): a pool of 16 per hop.
+fn wide_pool_strat() -> BoxedStrategy<History> {
+    history_strat(HistOpts { max_rounds: 60, max_probes: 5, hosts_per_hop: 16, ..HistOpts::default() })
+}
+
 fn long_strat() -> BoxedStrategy<History> {
     history_strat(HistOpts { max_rounds: 3000, max_probes: 6, hosts_per_hop: 2, ..HistOpts::default() })
 }
@@ -552,6 +557,7 @@ pub fn check() -> PropertyCheck {
         ],
         subs: vec![
             Box::new(Pbt { name: "synthetic", quick: 100_000, thorough: 3_000_000, strat, test, max_shrink: 8000 }),
+            Box::new(Pbt { name: "synthetic-many-addresses", quick: 10_000, thorough: 300_000, strat: wide_pool_strat, test, max_shrink: 4000 }),
             Box::new(Pbt { name: "synthetic-long", quick: 200, thorough: 20_000, strat: long_strat, test, max_shrink: 3000 }),
             Box::new(Pbt { name: "simulated", quick: 40_000, thorough: 500_000, strat: sim_strat, test: sim_test, max_shrink: 3000 }),
         ],
